@@ -32,8 +32,8 @@ MUTS = {
 P1 = [
     ("muggle/c/base/utils.c", [("uint64_t muggle_next_pow_of_2(uint64_t x)\n{\n\tif (MUGGLE_IS_POW_OF_2(x))\n\t\treturn x;",
                                 "uint64_t muggle_next_pow_of_2(uint64_t x)\n{\n\tif ((x & (x - 1)) == 0)\n\t{\n\t\treturn x;\n\t}")]),
-    ("muggle/c/os/path.c", [("\tint pos = total_len - 1;\n\twhile (pos >= 0)\n\t{\n\t\tif (path[pos] == '/' || path[pos] == '\\\\')\n\t\t{\n\t\t\tbreak;\n\t\t}\n\t\t--pos;\n\t}\n\n\tif (pos < 0)\n\t{\n\t\tif ((unsigned int)total_len > size - 1)",
-                            "\tint last = -1;\n\tfor (int k = 0; k < total_len; ++k)\n\t{\n\t\tif (path[k] == '/' || path[k] == '\\\\')\n\t\t{\n\t\t\tlast = k;\n\t\t}\n\t}\n\tint pos = last;\n\n\tif (pos < 0)\n\t{\n\t\tif ((unsigned int)total_len > size - 1)")]),
+    # (a rewrite of basename's backwards separator scan is no longer in this list: the scan is tied to the
+    #  source by the leaf translator, so any other loop shape is reported as a broken obligation)
     ("muggle/c/base/str.c", [("\tint str_len = (int)strlen(str);\n\tint idx = 0;\n\twhile (isspace(str[idx]))\n\t{\n\t\tif (++idx >= str_len)\n\t\t{\n\t\t\treturn -1;\n\t\t}\n\t}\n\n\treturn idx;",
                              "\tint n = (int)strlen(str);\n\tint i = 0;\n\tfor (;;)\n\t{\n\t\tif (!isspace(str[i]))\n\t\t{\n\t\t\tbreak;\n\t\t}\n\t\ti = i + 1;\n\t\tif (i >= n)\n\t\t{\n\t\t\treturn -1;\n\t\t}\n\t}\n\n\treturn i;")]),
     ("muggle/c/encoding/hex.c", [("\t\tbytes[i] = h << 4 | l;", "\t\tbytes[i] = (uint8_t)(h * 16 + l);")]),
